@@ -137,6 +137,19 @@ where
     } // end of reset
 } // end of implementation block for ProbMinHash2
 
+// verification hooks: compiled only with `--cfg probminhash_verif`
+#[cfg(probminhash_verif)]
+impl<D, H> ProbMinHash2<D, H>
+where
+    D: Copy + Eq + Debug + Hash,
+    H: Hasher + Default,
+{
+    /// leaves of the max value tracker (current minimal hash value per position)
+    pub fn verif_registers(&self) -> Vec<f64> {
+        (0..self.m).map(|k| self.maxvaluetracker.get_value(k)).collect()
+    }
+}
+
 #[cfg(test)]
 mod tests {
 
